@@ -359,6 +359,9 @@ let judge0 op args got =
             let show = function Ok ap -> raw ap ^ " " ^ hx p | Panic _ -> "panic" | _ -> "?" in
             if g = show (ctx_mul_build true b p m s1 e1 s2 e2) then { (known "float_exponent_range_unchecked" "a documented panic in every build") with extra = "asis=same cls=exp-range-checked-build" }
             else if g = show (ctx_mul_build false b p m s1 e1 s2 e2) then { (known "float_exponent_range_unchecked" "a documented panic in every build") with extra = "asis=same cls=exp-range-wrapping-build" }
+            else if g = "panic" then
+              (* a build without overflow checks whose wrapped exponent then trips the CHECKED addition of Repr::new (064626d) *)
+              { (known "float_exponent_range_unchecked" "a documented panic in every build") with extra = "cls=exp-range-late-panic" }
             else fail "panic-or-the-wrapped-exponent-of-the-as-is-model"
           end else begin
             let lim = zi (Zar.numbits s1 + Zar.numbits s2 + Zar.to_int p + 16) in
